@@ -54,6 +54,12 @@ def check_call(e):
 def cond(e):
     if isinstance(e, ast.UnaryOp) and isinstance(e.op, ast.Not):
         return "(negb %s)" % cond(e.operand)
+    if isinstance(e, ast.BoolOp):
+        return "(" + (" || " if isinstance(e.op, ast.Or) else " && ").join(cond(v) for v in e.values) + ")"
+    if isinstance(e, ast.Compare) and len(e.ops) == 1 and isinstance(e.ops[0], ast.Is) and isinstance(e.comparators[0], ast.Constant) \
+            and e.comparators[0].value is None and isinstance(e.left, ast.Call) and ast.unparse(e.left.func) == "context.peek_token" \
+            and len(e.left.args) == 1 and not e.left.keywords:
+        return "(is_none (peek toks %s))" % zexpr(e.left.args[0])
     if isinstance(e, ast.Compare) and len(e.ops) == 1 and isinstance(e.ops[0], ast.Is) and isinstance(e.comparators[0], ast.Constant):
         v = e.comparators[0].value
         if v is True:
@@ -90,7 +96,15 @@ def block(stmts, wrap, end):
                 and isinstance(v, ast.Call) and ast.unparse(v.func) == "context.peek_token" and len(v.args) == 1:
             zexpr(v.args[0])                      # a token remembered on the rule object: no effect on the result
             return block(rest, wrap, end)
-        fail(st, "assignment outside the subset")
+        if not (isinstance(tg, ast.Name) and tg.id == "i" and isinstance(v, ast.Constant) and type(v.value) is int):
+            fail(st, "assignment outside the subset")
+    if isinstance(st, ast.Assign) and len(st.targets) == 1 and isinstance(st.targets[0], ast.Name) and st.targets[0].id == "i" \
+            and isinstance(st.value, ast.Constant) and type(st.value.value) is int:
+        return "(let i := (%d) in\n  %s)" % (st.value.value, block(rest, wrap, end))
+    if isinstance(st, ast.While) and not st.orelse and len(st.body) == 1 and isinstance(st.body[0], ast.AugAssign) \
+            and ast.unparse(st.body[0]) == "i += 1":
+        # `while C(i): i += 1`  (Model/RuleChecks.skip_while: ends at the latest at the end of the tokens)
+        return "(let i := skip_while toks (fun i => %s) i in\n  %s)" % (cond(st.test), block(rest, wrap, end))
     if isinstance(st, ast.AugAssign) and isinstance(st.op, ast.Add) and isinstance(st.target, ast.Name) and st.target.id == "i":
         return "(let i := (i + %s) in\n  %s)" % (zexpr(st.value), block(rest, wrap, end))
     if isinstance(st, ast.If) and not st.orelse:
@@ -156,6 +170,20 @@ def gen_iscomment(repo, L):
     return o
 
 
+def gen_isemptyline(repo, L):
+    """IsEmptyLine.run (rules/is_empty_line.py), whole, and the primaries Registry.run tries before it"""
+    o = "From NV Require Import Model.Base Model.RuleChecks Model.EngineTok0.\n\n"
+    cls, fn = method(repo, "norminette/rules/is_empty_line.py", "IsEmptyLine")
+    if len(cls.body) != 1:
+        raise TranslateError("IsEmptyLine: unexpected class body")
+    body = strip_doc(fn.body)
+    if not body or not isinstance(body[-1], ast.Return):
+        raise TranslateError("IsEmptyLine.run does not end with a return")
+    o += "(* IsEmptyLine.run  (ast fingerprint %s) *)\n" % fingerprint(fn)
+    o += "Definition isemptyline_run (toks : list token) : bool * Z :=\n  %s.\n" % block(body, lambda x: x, "(false, (0))")
+    return o
+
+
 def _closed(fn):
     def g(repo, L):
         try:
@@ -167,4 +195,4 @@ def _closed(fn):
     return g
 
 
-GENERATORS = {"IsComment": _closed(gen_iscomment)}
+GENERATORS = {"IsComment": _closed(gen_iscomment), "IsEmptyLine": _closed(gen_isemptyline)}
